@@ -267,7 +267,97 @@ def gen_c09lits():
     return "\n".join(out) + "\n"
 
 
-GENERATORS = {"C09Lits.lean": gen_c09lits}
+# ---------------------------------------------------------------------------------------------- round 6: unfold_part_alignment
+ALIGN_PROBED = ["match", "deletion", "insertion", "ornament", "trill", "", "Match", "DELETION"]
+
+
+def gen_c09align():
+    """Gen/C09Align.lean: what `unfold_part_alignment` reads from / writes to its `alignment` argument, by CALLING it.
+
+    * ALIGN_LABELS        the probed labels whose entry contributes its score_id to the ids the variants are judged by: a
+                          one-entry alignment of that label makes the call succeed; with a label that does not count there
+                          is no id at all, the coverage is the mean of nothing and the call fails
+    * ALIGN_KEYERROR      an entry of a counted label WITHOUT "score_id" makes the call fail; ALIGN_OTHER_NOKEY_OK: an entry
+                          of another label without the key does not
+    * ALIGN_SUFFIX        what the call appends to every "score_id" of the caller's alignment (probe id 'x')
+    * ALIGN_MARK_IS_SUFFIX the rewriting is suppressed exactly when some score_id CONTAINS that suffix (probes 'x-1', '-1x',
+                          'a-1b' suppress; 'x-', 'x1', '1-', 'x-2' do not), one such entry suppresses it for all entries
+    * ALIGN_REWRITE_ALL   entries of labels that do not count are rewritten too when they carry a score_id; entries without
+                          the key stay without it
+    * ALIGN_NO_REWRITE_ON_ERROR  when the call fails the alignment is left as it was
+    """
+    errs = []
+    v = dict(LABELS=[], KEYERROR=False, OTHER_NOKEY_OK=False, SUFFIX="", MARK=False, ALL=False, NOERR=False)
+    try:
+        import copy
+        import partitura.score as S
+        with warnings.catch_warnings():
+            warnings.simplefilter("ignore")
+
+            def run(al):
+                al = copy.deepcopy(al)
+                try:
+                    S.unfold_part_alignment(_tiny(S, ids=("x", "y"), repeat=True), al)
+                    return True, al
+                except Exception:  # noqa
+                    return False, al
+            base = {"label": "match", "score_id": "x-2"}
+            if not run([base])[0]:
+                errs.append("the base probe (one match) fails")
+            for lb in ALIGN_PROBED:
+                ok, _ = run([{"label": lb, "score_id": "x-2"}])
+                if ok:
+                    v["LABELS"].append(lb)
+            counted = v["LABELS"][0] if v["LABELS"] else "match"
+            other = next((lb for lb in ALIGN_PROBED if lb not in v["LABELS"]), "insertion")
+            v["KEYERROR"] = not run([base, {"label": counted}])[0]
+            v["OTHER_NOKEY_OK"] = run([base, {"label": other, "performance_id": "p"}])[0]
+            ok, al = run([{"label": counted, "score_id": "x"}])
+            if ok and al[0]["score_id"].startswith("x"):
+                v["SUFFIX"] = al[0]["score_id"][1:]
+            else:
+                errs.append("suffix probe: %r %r" % (ok, al))
+            sfx = v["SUFFIX"]
+            mark = bool(sfx)
+            for sid, suppressed in (("x" + sfx, True), (sfx + "x", True), ("a" + sfx + "b", True), ("x" + sfx[:-1], False),
+                                    ("x" + sfx[1:], False), (sfx[::-1] if sfx[::-1] != sfx else "q", False), ("x-2", False)):
+                ok, al = run([{"label": counted, "score_id": sid}, {"label": counted, "score_id": "y"}])
+                got = [e["score_id"] for e in al]
+                want = [sid, "y"] if suppressed else [sid + sfx, "y" + sfx]
+                if not ok or got != want:
+                    mark = False
+                    errs.append("mark probe %r: %r" % (sid, got))
+            v["MARK"] = mark
+            ok, al = run([{"label": counted, "score_id": "x"}, {"label": other, "score_id": "q"}, {"label": other, "performance_id": "p"}])
+            v["ALL"] = ok and al[1].get("score_id") == "q" + sfx and "score_id" not in al[2] and al[2].get("performance_id") == "p" \
+                and [e["label"] for e in al] == [counted, other, other]
+            ok, al = run([{"label": other, "score_id": "x"}])
+            v["NOERR"] = (not ok) and al[0]["score_id"] == "x"
+    except Exception as e:  # noqa
+        errs.append("%s: %s" % (type(e).__name__, str(e)[:120]))
+    out = []
+    w = out.append
+    w("-- GENERATED by harness/translate_c09.py (gen_c09align) by calling the live unfold_part_alignment. DO NOT EDIT.")
+    w("namespace Gen.C09\n")
+    w("def ALIGN_OK : Bool := %s" % _lbool(not errs))
+    w("def ALIGN_NOTES : List String := %s\n" % _llist([_lstr(e) for e in errs]))
+    w("/-- the labels probed -/")
+    w("def ALIGN_PROBED : List String := %s" % _llist([_lstr(x) for x in ALIGN_PROBED]))
+    w("/-- … of which these make an entry count (its score_id is one of the ids the variants are judged by) -/")
+    w("def ALIGN_LABELS : List String := %s" % _llist([_lstr(x) for x in v["LABELS"]]))
+    w("def ALIGN_KEYERROR : Bool := %s" % _lbool(v["KEYERROR"]))
+    w("def ALIGN_OTHER_NOKEY_OK : Bool := %s" % _lbool(v["OTHER_NOKEY_OK"]))
+    w("/-- appended to every score_id of the caller's alignment unless some score_id contains it -/")
+    w("def ALIGN_SUFFIX : String := %s" % _lstr(v["SUFFIX"]))
+    w("def ALIGN_MARK_IS_SUFFIX : Bool := %s" % _lbool(v["MARK"]))
+    w("def ALIGN_REWRITE_ALL : Bool := %s" % _lbool(v["ALL"]))
+    w("def ALIGN_NO_REWRITE_ON_ERROR : Bool := %s" % _lbool(v["NOERR"]))
+    w("\nend Gen.C09")
+    return "\n".join(out) + "\n"
+
+
+GENERATORS = {"C09Lits.lean": gen_c09lits, "C09Align.lean": gen_c09align}
 
 if __name__ == "__main__":
     print(gen_c09lits())
+    print(gen_c09align())
